@@ -160,8 +160,14 @@ func runClient(t *byteTable, b *clBeh, seg func(n int) []int) (o clObs) {
 	}
 	switch b.Cfg.Body {
 	case "getbody":
-		orig := req.GetBody
-		req.GetBody = func() (io.ReadCloser, error) { mu.Lock(); o.getBody++; mu.Unlock(); return orig() }
+		// every body handed out is really gone once it was closed (a file, a pipe): closing a fresh one before it is sent loses it
+		req.Body = &closingBody{r: strings.NewReader(clPayload)}
+		req.GetBody = func() (io.ReadCloser, error) {
+			mu.Lock()
+			o.getBody++
+			mu.Unlock()
+			return &closingBody{r: strings.NewReader(clPayload)}, nil
+		}
 	case "failgetbody":
 		req.GetBody = func() (io.ReadCloser, error) { mu.Lock(); o.getBody++; mu.Unlock(); return nil, errGetBody }
 	}
@@ -214,6 +220,8 @@ func runClient(t *byteTable, b *clBeh, seg func(n int) []int) (o clObs) {
 				rd.end = context.DeadlineExceeded
 			case "errwrapeof":
 				rd.end = errWrapEOF
+			case "erriou":
+				rd.end = io.ErrUnexpectedEOF // what net/http reports for a body shorter than announced: a read error, not a clean end
 			case "cancel_eof":
 				rd.end = io.EOF
 				rd.onEnd = cancel
@@ -228,7 +236,9 @@ func runClient(t *byteTable, b *clBeh, seg func(n int) []int) (o clObs) {
 			if st.O != "stream" {
 				body = readerFunc(func(p []byte) (int, error) { rejectedReads++; return rd.Read(p) })
 			}
-			return &http.Response{StatusCode: 200, Header: http.Header{"Content-Type": {"text/event-stream"}}, Body: io.NopCloser(body), Request: q}, nil
+			// the scripted validator decides; what it accepts is a stream whatever the status line says
+			status := []int{200, 204, 206, 200}[i%4]
+			return &http.Response{StatusCode: status, Header: http.Header{"Content-Type": {"text/event-stream"}}, Body: io.NopCloser(body), Request: q}, nil
 		}
 		fatal("bad step %q", st.O)
 		return nil, nil
@@ -236,7 +246,7 @@ func runClient(t *byteTable, b *clBeh, seg func(n int) []int) (o clObs) {
 
 	bo := sse.Backoff{
 		InitialInterval: time.Duration(b.Cfg.Initial) * clUnit,
-		Multiplier:      float64(b.Cfg.MulNum) / float64(b.Cfg.MulDen),
+		Multiplier:      clMul(b.Cfg.MulNum, b.Cfg.MulDen),
 		MaxInterval:     time.Duration(b.Cfg.MaxInterval) * clUnit,
 		MaxRetries:      b.Cfg.MaxRetries,
 	}
@@ -267,6 +277,10 @@ func runClient(t *byteTable, b *clBeh, seg func(n int) []int) (o clObs) {
 			cancel()
 		}
 	}
+	// one Client serves any number of connections: creating one must leave the Client's configuration as it was
+	if dummy, derr := http.NewRequest(http.MethodGet, "http://verif.invalid/other", http.NoBody); derr == nil {
+		_ = c.NewConnection(dummy)
+	}
 	cn := c.NewConnection(req)
 	cn.SubscribeToAll(func(e sse.Event) {
 		o.evs = append(o.evs, ev{e.LastEventID, e.Type, e.Data})
@@ -294,6 +308,10 @@ func errClassOK(err error, class string) bool {
 		return errors.As(err, &ce) && errors.Is(err, context.DeadlineExceeded)
 	case "wrapeof":
 		return errors.Is(err, errWrapEOF)
+	case "iou":
+		// reported as itself; sse.ErrUnexpectedEOF is for streams that really ended cleanly in mid-line (when the read error strikes
+		// in mid-line the two must still be told apart: they are different errors)
+		return errors.Is(err, io.ErrUnexpectedEOF) && !errors.Is(err, sse.ErrUnexpectedEOF)
 	case "eof":
 		return errors.Is(err, io.EOF) && !errors.Is(err, sse.ErrUnexpectedEOF) && !errors.Is(err, errWrapEOF)
 	case "unexpected_eof":
@@ -624,6 +642,29 @@ func cmdClientElapsed(args []string) {
 func init() {
 	commands["client-elapsed"] = cmdClientElapsed
 }
+
+// clMul: a numerator of 2*10^9 stands for a multiplier beyond anything an interval can be multiplied by (10^13)
+func clMul(num, den int) float64 {
+	if num >= clHuge {
+		return 1e13
+	}
+	return float64(num) / float64(den)
+}
+
+// closingBody is a request body that cannot be read any more once it was closed
+type closingBody struct {
+	r      io.Reader
+	closed bool
+}
+
+func (b *closingBody) Read(p []byte) (int, error) {
+	if b.closed {
+		return 0, errors.New("read on closed request body")
+	}
+	return b.r.Read(p)
+}
+
+func (b *closingBody) Close() error { b.closed = true; return nil }
 
 type readerFunc func(p []byte) (int, error)
 
